@@ -149,7 +149,7 @@ def plan_C02(tier, seed):
     return {
         "level": "exploration",
         "rule": "random operation histories (50..600 ops drawn from request(n), request_byte, request_byte_at_offset(k), "
-                "request_more, advance(n), advance_with_buf(n), set_mark, set_mark_to_position(p incl. near usize::MAX), "
+                "request_more, advance(n), advance_with_buf(n), unsafe advance_unchecked(n <= buf_len, its contract), set_mark, set_mark_to_position(p incl. near usize::MAX), "
                 "set_chunk_size(1..65536), check_io_error) on a bare DeferredReader built via from_read / from_boxed_dyn_read / "
                 "from_buf_reader(empty and partly consumed BufReader), over position-identifying zero-free streams of 0..1 MiB "
                 "delivered under one-shot, fixed-k, two-part, random and random+Interrupted schedules ending in EOF, early EOF "
@@ -426,7 +426,7 @@ def plan_C06(tier, seed):
     ]
     fl = dict(PARSER_FLOORS)
     fl.update({"parser:log": 100, "accepted_and_confirmed": q(tier, 1_000_000, 50_000_000), "items_compared": 5_000_000,
-               "limit_aimed_accepted": 100_000, "limit_aimed_rejected_by_both": 100_000,
+               "limit_aimed_accepted": 100_000, "limit_aimed_rejected_by_both": 100_000, "aiger_section_skipping_parses": 100_000,
                "lit:i8": 1000, "lit:i16": 1000, "lit:i32": 1000, "lit:i64": 1000, "lit:isize": 1000,
                "lit:u8": 1000, "lit:u16": 1000, "lit:u32": 1000, "lit:u64": 1000, "lit:usize": 1000,
                "distinct_nontrivial": q(tier, 300_000, 10_000_000)})
@@ -440,7 +440,9 @@ def plan_C06(tier, seed):
                 "MAX_DIMACS; solver-log values; AIGER: M <= (MAX_CODE-1)/2, I+L+A <= M, literals <= 2M+1, defining literals "
                 "even and non-zero, section sizes = header counts, latch reset in {0,1,own}, deltas <= reference code, symbol "
                 "index < section count; BTOR2: ids/widths/indices exact in u64, ids and widths non-zero. Whenever the parser "
-                "ACCEPTS, the reference must accept too with identical items. Half of the inputs come from the shared corpus, "
+                "ACCEPTS, the reference must accept too with identical items. AIGER inputs are read a third time through the "
+                "section readers with a random pattern of moving on early (none / one entry of a section taken): accepted means "
+                "the reference accepts and the entries handed out are those the text has at these places. Half of the inputs come from the shared corpus, "
                 "half from a limit-aimed generator (one number token of a well-formed document moved to limit-1 / limit / "
                 "limit+1 / 10*limit / +-1 / 2^64, both signs, 0..30 leading zeros). Non-trivial = accepted input with >= 2 items, "
                 "or a limit-aimed input rejected by both; distinct by hash of (bytes, parser config).",
@@ -492,6 +494,7 @@ def plan_C03(tier, seed):
                "choice:latch_reset_0": 1000, "choice:latch_reset_1": 1000, "choice:latch_uninitialised": 1000,
                "choice:gate_inputs_given_smaller_first": 1000, "choice:comment": 1000,
                "choice:btor_symbol": 1000, "choice:btor_node_comment": 1000, "choice:btor_comment_line": 1000,
+               "aiger_section_skipping_roundtrips": 50_000, "btor_documents_also_through_display": 20_000,
                "distinct_nontrivial": q(tier, 400_000, 10_000_000)})
     for k in range(1, 11):
         fl["choice:varint_len:%d" % k] = 50
@@ -517,7 +520,11 @@ def plan_C03(tier, seed):
                 "latch reset forms, symbols of every kind at index 0/count-1/random, arbitrary UTF-8 names and comments, "
                 "trailing-zero header fields, delta codes of every 7-bit length 1..10 (huge input counts), gate inputs given "
                 "in either order; BTOR2 lines of every operator / sort / output kind with ids up to u64::MAX, constants built "
-                "through the validating TryFrom constructors from candidate strings that also contain non-digits - written by "
+                "through the validating TryFrom constructors from candidate strings that also contain non-digits or are empty; "
+                "OrderedAig additionally converted with Aig::from and written by write_aig; BTOR2 lines additionally rendered "
+                "with Display (UTF-8 documents); every AIGER document additionally (1/2) read through the section readers "
+                "moving on before a section is exhausted (none / one entry taken): the entries handed out are the written "
+                "ones and the end is clean - written by "
                 "the real writers through a DeferredWriter (documents > 16 KiB included) and parsed back: every field equal "
                 "(canonical rendering) and a clean end. direction 2 (1/3): every text of the shared corpus that a parser "
                 "accepts is parsed to typed values, written and parsed again. Non-trivial = at least 2 items; distinct by hash "
@@ -585,7 +592,7 @@ def plan_C12(tier, seed):
                 "numbered consecutively, max_var_index = their count, every gate's inputs numbered below it with the larger "
                 "first, every output / latch next-state / bad / constraint / justice / fairness literal evaluates identically "
                 "in original and result (independent iterative simulator, 64 assignments per word: exhaustive truth tables up "
-                "to 6 inputs+latches, else R random rounds), lit_map.get(l) evaluates like l for every defined literal of "
+                "to 6 inputs+latches, else R random rounds), lit_map.get(l) evaluates like l (and contains_key / len / is_empty agree with get) for every defined literal of "
                 "either polarity, reset values / symbols / comment carried over, and the result survives the binary writer "
                 "and parser unchanged. ill-formed: exactly one reachable defect each - combinational cycle (self loop or "
                 "length 2, either polarity, through either input), undefined literal (root or gate input), doubly defined "
